@@ -68,6 +68,13 @@ def body(led):
             bad.append((k, str(vm), str(vp)))
     nm = 'premise(C15): f_i(+-1) = 0 for every function except the two translation functions (which carry the t-flags)'
     led.ok(nm, 'premise(C15)', backend='exact-rational') if not bad else led.fail(nm, 'premise(C15)', {'offending': bad})
+    # (v) the eigen-solver wrappers solve the problem restricted to the active amplitudes and nothing else (shared with C05/C06):
+    #     a wrapper that drops or keeps amplitudes by another rule makes the smaller model no longer a sub-problem of the larger
+    from .c14 import _Premises
+    from . import c05, c06
+    view = _Premises(led, ('/post',))
+    c05.check_lb(view)
+    c06.check_freq(view)
     led.extra['unchecked_clauses'] = ['monotone upper bounds: conclusion by the cited min-max theorem', 'convergence to the closed-form values (limit)']
 
 
